@@ -101,7 +101,8 @@ func runC16(tier string, seed uint64) {
 	}
 	buckets := []string{"bkt", "b-2"}
 	keys := []string{"k", "d/e", "k with space", "\xc3\xbc", "a.b", "d/e/f.txt",
-		"d//e", "d/./e", "x/../k", ".hid", "e..", "d/e/../e"} // segments a path cleaner would fold (all twins run on the memory backend)
+		"d//e", "d/./e", "x/../k", ".hid", "e..", "d/e/../e",
+		"y=2024/p+0.q", "t/12:30", "a(b)!*'", "c@d,e;f"} // ... and characters the SDKs send percent-encoded (net/url then keeps a RawPath) // segments a path cleaner would fold (all twins run on the memory backend)
 	n := 400
 	if tier == "thorough" {
 		n = 6000
@@ -215,7 +216,7 @@ func runC16(tier string, seed uint64) {
 			nontrivial(t.name + "|" + l.method + "|" + l.query + "|" + l.bucket + "|" + l.key)
 		}
 	}
-	sample("each logical request (create/put/get/range/head/delete/list V1+V2/versions/location/versioning/multi-delete/copy/multipart initiate+part+list+abort/unknown methods over 2 buckets x 12 keys incl. spaces, UTF-8, dots, nesting, empty / '.' / '..' segments) is sent to 14 twin servers: path-style; host-bucket; host-bucket-base with one base, two bases (first and second base, configured with stray dots and a port), fallbacks (localhost, the base itself, multi-label prefix, unrelated host), two bases one of which is a suffix of the other (both orders, both hosts); path-style with an extra leading and a trailing slash")
+	sample("each logical request (create/put/get/range/head/delete/list V1+V2/versions/location/versioning/multi-delete/copy/multipart initiate+part+list+abort/unknown methods over 2 buckets x 16 keys incl. spaces, UTF-8, dots, nesting, empty / '.' / '..' segments) is sent to 14 twin servers: path-style; host-bucket; host-bucket-base with one base, two bases (first and second base, configured with stray dots and a port), fallbacks (localhost, the base itself, multi-label prefix, unrelated host), two bases one of which is a suffix of the other (both orders, both hosts); path-style with an extra leading and a trailing slash")
 }
 
 func uniq(xs []string, skip bool) []string {
